@@ -391,6 +391,26 @@ def check_meta(case, out):
             sig = ("javascript", "function", "implicit-global-row", "variable-assigned-before-its-declaration-in-the-function")
             if common.classify("C05", ("C05",) + sig)[0] == "known":
                 ds = [(sig, "assignment before declaration")]
+    if not ds and lang == "javascript":
+        # an assignment inside a function to a variable / parameter / function name of an ENCLOSING function makes lian
+        # add a spurious unit-level row for that name (open finding); other uses of the name may bind to that row,
+        # and a renaming moves it -> same root cause
+        sig = ("javascript", "function", "implicit-global-row", "unresolved")
+        if common.classify("C05", ("C05",) + sig)[0] == "known":
+            for pr in (prog, J.Program(copy.deepcopy(case["tree2"]))):
+                for o in pr.occs:
+                    if o.role != "write":
+                        continue
+                    d = pr.resolve(o.scope, o.name)
+                    fn = o.scope
+                    while fn is not None and fn.kind == "block":
+                        fn = fn.parent
+                    if d is not None and d.scope.kind != "module" and fn is not None and fn.kind == "function":
+                        ds_scope = d.scope
+                        while ds_scope is not None and ds_scope.kind == "block":
+                            ds_scope = ds_scope.parent
+                        if ds_scope is not fn:
+                            ds = [(sig, "assignment to a variable of an enclosing function")]
     if ds:
         out.skipped = True
         for sig, what in ds:
@@ -404,6 +424,25 @@ def check_meta(case, out):
     if "error" in o2:
         out.discrepancies.append(((lang, "rename", "crash", "renamed"), "lian failed on the renamed program: " + o2["error"]))
         return
+    # 1b. ... and neither must the renamed one: a binding defect that only shows under the new name (or that the
+    # binding oracle reports for one of the two versions only) is that defect, reported by the binding half, not a
+    # fresh violation of the renaming relation
+    if lang == "python":
+        ds2 = []
+        for rel, src in case["renamed"].items():
+            d0, _ = P.compare_unit(rel, P.PyOracle(src, rel), b2)
+            ds2.extend(d0)
+    else:
+        ds2, _ = J.compare("a.js", J.Program(copy.deepcopy(case["tree2"])), b2)
+    if ds2:
+        out.skipped = True
+        for sig, what in ds2:
+            full = ("C05",) + tuple(sig)
+            kind, entry = common.classify("C05", full)
+            out.stepovers.append((entry.get("id") if kind == "known" else "unclassified:" + "/".join(full)))
+        out.stepovers = sorted(set(out.stepovers))
+        if not os.environ.get("C05_META_NO_SKIP"):
+            return
     out.stats["compared-bindings"] = len(o1["bindings"])
     out.stats["call-graph-edges"] = len(o1["call_graph"])
     out.stats["call-paths"] = len(o1["call_paths"])
